@@ -164,3 +164,26 @@ def norm_stmt_text(node):
     """Normalised statement text: a stable construct key that survives
     re-formatting (never a line number)."""
     return ' '.join(src_of(node).split())
+
+
+def deep_values(v, trace, _seen=None):
+    """values_in, additionally expanded through the arguments of the calls
+    that produced ext/mcall/ucall/ret values (their events are in `trace`)."""
+    _seen = _seen if _seen is not None else set()
+    out = []
+    for x in values_in(v):
+        out.append(x)
+        seq = None
+        if x.k in ('ext', 'mcall') and len(x.a) > 1 and isinstance(x.a[1], int):
+            seq = x.a[1]
+        elif x.k in ('ucall',) and isinstance(x.a[0], int):
+            seq = x.a[0]
+        if seq is not None and seq not in _seen and 0 <= seq < len(trace):
+            _seen.add(seq)
+            ev = trace[seq]
+            for a in list(ev.d.get('args') or []) + list((ev.d.get('kwargs') or {}).values()):
+                out.extend(deep_values(a, trace, _seen))
+            r = ev.d.get('recv')
+            if isinstance(r, V):
+                out.extend(deep_values(r, trace, _seen))
+    return out
